@@ -438,3 +438,53 @@ def module_threading_check(repo, tier, seed):
             'undecided': [] if len(obs) >= 3 else [{'function': 'asn1tools/codecs/compiler.py::Compiler', 'kind': 'vacuous',
                                                     'reason': 'fewer than 3 lookup/use pairs found'}],
             'coverage': {'obligations': [o[0] for o in obs]}}
+
+
+# ------------------------------------------------------------------------------------------------------------
+def set_order_check(repo, tier, seed):
+    """C03 (X.690 10.3): SET components are compiled in tag order.  Data-flow obligations on the real AST:
+    every BER/DER Compiler.compile_implicit_type passes sort_by_tag=True in its 'SET' branch, and compile_members sorts
+    with key=get_tag_no_encoding when the flag is set (get_tag_no_encoding itself is under an SMT contract)."""
+    import ast
+    from .program import Program
+    prog = Program(repo)
+    obs, viol, funcs = [], [], []
+    for rel in ('asn1tools/codecs/ber.py', 'asn1tools/codecs/der.py'):
+        m = prog.module_by_relpath(rel)
+        c = m.classes.get('Compiler')
+        f = c.methods.get('compile_implicit_type') if c else None
+        if f is None:
+            continue
+        ok = False
+        for n in ast.walk(f.node):
+            if isinstance(n, ast.If) and isinstance(n.test, ast.Compare) and any(
+                    isinstance(x, ast.Constant) and x.value == 'SET' for x in ast.walk(n.test)):
+                for call in ast.walk(ast.Module(body=n.body, type_ignores=[])):
+                    if isinstance(call, ast.Call) and isinstance(call.func, ast.Attribute) and call.func.attr == 'compile_members':
+                        ok = any(k.arg == 'sort_by_tag' and isinstance(k.value, ast.Constant) and k.value.value is True
+                                 for k in call.keywords)
+        name = '%s/set-sorted-by-tag' % f.ident
+        obs.append((name, ok))
+        funcs.append({'function': f.ident, 'source_sha256': f.sha, 'paths': 1, 'obligations': 1, 'discharged': int(ok),
+                      'outcomes': {}, 'seconds': 0.0, 'inlined_callees': []})
+        if not ok:
+            viol.append({'obligation': name, 'function': f.ident, 'verdict': 'data-flow obligation failed',
+                         'solver_output': "the 'SET' branch of %s does not compile its members with sort_by_tag=True" % f.ident,
+                         'inputs': None})
+    m = prog.module_by_relpath('asn1tools/codecs/ber.py')
+    f = m.classes['Compiler'].methods.get('compile_members')
+    ok = False
+    if f is not None:
+        for n in ast.walk(f.node):
+            if isinstance(n, ast.If) and isinstance(n.test, ast.Name) and n.test.id == 'sort_by_tag':
+                txt = ast.unparse(n)
+                ok = 'sorted(compiled_members, key=get_tag_no_encoding)' in txt
+        name = '%s/sorts-by-tag-key' % f.ident
+        obs.append((name, ok))
+        if not ok:
+            viol.append({'obligation': name, 'function': f.ident, 'verdict': 'data-flow obligation failed',
+                         'solver_output': 'compile_members no longer sorts with key=get_tag_no_encoding under sort_by_tag', 'inputs': None})
+    return {'name': 'SET ordering data-flow', 'obligations': len(obs), 'discharged': sum(1 for o in obs if o[1]), 'violations': viol,
+            'functions': funcs, 'undecided': [] if len(obs) == 3 else [{'function': 'ber/der Compiler', 'kind': 'shape',
+                                                                        'reason': 'compile_implicit_type / compile_members not found'}],
+            'coverage': {'obligations': [o[0] for o in obs]}}
